@@ -227,6 +227,9 @@ func genField(rng *rand.Rand, sb *strings.Builder, class string, s, f int, gener
 				inject = append(inject, KV{k, pickVal(rng, class)})
 			}
 		}
+		if rng.Intn(2) == 0 { // ... or in another order than the literal's
+			rng.Shuffle(len(inject), func(a, b int) { inject[a], inject[b] = inject[b], inject[a] })
+		}
 	case 0: // override only
 		k := existing[rng.Intn(len(existing))].K
 		inject = []KV{{k, pickVal(rng, class)}}
